@@ -178,7 +178,40 @@ def run(P, R, tier):
                     R.check(ok, 'C19.d', g, c, f'retried writer opens with truncating mode {m!r}',
                             f'writer opens with mode {m!r}' + ('' if m in ('wb', 'w') else ': a retry after a partial write appends/keeps stale bytes') +
                             ('' if (g.tags.get('retry') or g is F) else ' outside a retried helper'))
+                    # ... at a path that is the same on every attempt: a name drawn afresh inside the retried function (uuid, random, time) leaves the file of
+                    # every failed attempt behind (stray part files are read back as extra partitions)
+                    if g.tags.get('retry') and c.args:
+                        pe = astq.expand(g, c.args[0])
+                        fresh = [x for x in ast.walk(pe) if isinstance(x, ast.Call) and norm(x.func).split('.')[-1] in
+                                 ('uuid4', 'uuid1', 'random', 'randint', 'token_hex', 'token_urlsafe', 'time', 'time_ns', 'mkstemp', 'mktemp', 'getpid', 'urandom')]
+                        R.check(not fresh, 'C19.d', g, c, 'the path written is the same on every attempt of the retried writer',
+                                f'the path opened for writing contains `{norm(fresh[0]) if fresh else ""}`, drawn inside the retried function: every attempt writes another file, and the file of a failed '
+                                'attempt is never removed (it is later read back as part of the dataset)', construct=f'{g.name}: attempt-independent write path')
     R.floor('C19.d', 'open-for-write sites', nw, 4)
+    # C19.f: a list handed to a retried writer as `metadata_collector=` receives one entry PER ATTEMPT; whoever consumes it takes exactly one entry
+    # (an index), never the whole list
+    for g in helpers.values():
+        if not g.tags.get('retry'):
+            continue
+        for c in astq.own_calls(g):
+            mc = astq.arg_of(c, kw='metadata_collector')
+            if mc is None or not isinstance(mc, ast.Name) or mc.id not in g.params:
+                continue
+            pos = g.params.index(mc.id)
+            # call sites of g: the list they pass
+            for h in [F] + list(helpers.values()):
+                for cc in astq.own_calls(h):
+                    r = P.resolve_call(h, cc)
+                    if not (r and r[0] == 'func' and r[1] is g and pos < len(cc.args) and isinstance(cc.args[pos], ast.Name)):
+                        continue
+                    L = cc.args[pos].id
+                    uses = [x for x in walk_own(h.node) if isinstance(x, ast.Name) and x.id == L and isinstance(x.ctx, ast.Load) and x is not cc.args[pos]]
+                    for u in uses:
+                        par = getattr(u, '_parent', None)
+                        single = isinstance(par, ast.Subscript) and par.value is u and not isinstance(par.slice, ast.Slice)
+                        R.check(single, 'C19.f', h, par if par is not None else u, f'`{L}` (filled once per attempt of {g.name}) is consumed one entry at a time',
+                                f'`{norm(par) if par is not None else L}` hands on the whole list `{L}` that the retried {g.name} fills once per ATTEMPT: after a transient fault it holds two entries for one part, '
+                                'so the part\'s row groups are recorded twice in _metadata', construct=f'{h.name}: single entry of {L}')
     # a retried function must be re-entrant: it may not mutate captured (non-local) objects, because a retry repeats the mutation
     from effects import base_name
     MUT = ('append', 'extend', 'add', 'update', 'insert', 'remove', 'pop', 'clear', 'sort', 'reverse', 'setdefault')
